@@ -693,6 +693,16 @@ func deliveryCases(c *Ctx, f *format) {
 				os.Remove(p)
 			}
 		}
+		// one iterator value from File, ranged again after an early stop and after a full traversal
+		if i%3 == 0 && f.fileTwice != nil {
+			p := writeTemp(fmt.Sprintf("c06t-%s-%d.dat", f.name, i), in.data, false)
+			n++
+			second, third, st := f.fileTwice(p, limit)
+			os.Remove(p)
+			if oracle == "" && (st != "" || itemsStr(second, "") != in.want || itemsStr(third, "") != in.want) {
+				oracle = fmt.Sprintf("%s.File: the same iterator value ranged again (after an early stop, then after a full traversal) yields %s / %s %s, the file holds %s", f.name, trunc(itemsStr(second, ""), 60), trunc(itemsStr(third, ""), 60), st, trunc(in.want, 60))
+			}
+		}
 		c.add(Case{Kind: f.name + "-special-delivery", Nontrivial: true, Oracle: oracle, Note: fmt.Sprintf("%s input of %d bytes (%s) under %d deliveries incl. File plain/.gz/multi-member .gz", f.name, len(in.data), in.desc, n)})
 	}
 }
